@@ -271,9 +271,9 @@ struct Hist {
             finite = finite && std::isfinite(x[i]);
         }
         c.obs.check("solve_vs_dense", finite ? (double)(emax / xmax) : std::numeric_limits<double>::quiet_NaN(), key);
-        if (again)
+        if (again) // two parties; the key names the one whose value came from a copy/move (this object if both did)
             c.obs.require("solve_bit_identical", std::memcmp(x.data(), it->second.x.data(), n * sizeof(double)) == 0,
-                          key + (it->second.prov == m.prov || it->second.prov == "constructed" ? "" : "/vs-first-solve-by:" + it->second.prov));
+                          AD::cls(m) + "/solve/value-from:" + (m.prov == "constructed" ? it->second.prov : m.prov));
         else if (it == solved.end())
             solved[m.mid] = SolveRec{rhs, x, xref, m.prov};
         // a first solve factorises in place (tridiagonal): the readable elements change once, and identically for every
@@ -285,8 +285,7 @@ struct Hist {
                 factored.emplace(m.mid, FactRec{s, m.prov});
             else
                 c.obs.require("elements_match_model", s.same(f->second.snap),
-                              AD::cls(m) + "/first-solve-factorises/value-from:" + m.prov +
-                                  (f->second.prov == m.prov || f->second.prov == "constructed" ? "" : "/vs-first-factorised-by:" + f->second.prov));
+                              AD::cls(m) + "/first-solve-factorises/value-from:" + (m.prov == "constructed" ? f->second.prov : m.prov));
             m.exp = s; // from here on the stored factor must stay as it is
             m.st  = ST_FACTORISED;
         }
